@@ -704,7 +704,7 @@ def _count(files) -> int:
     return n
 
 
-K4_SECONDS_PER_DOCUMENT = 0.6  # measured ~0.15 s cpu per document (path) on a loaded machine; budget = 4x
+K4_SECONDS_PER_DOCUMENT = 1.0  # measured 0.15 s (idle) - 0.3 s (heavily loaded machine) cpu per document (path)
 
 
 def _k4_case_ob(name, files, nl=True, **extra) -> Ob:
@@ -801,13 +801,17 @@ def _k4_obligations(tier: str) -> List[Ob]:
             obs.append(_k4_case_ob('K4:C:one-level:%s' % r0, {R: [r0, 'inc:f1', rt], F1: [f1, f1], F2: ['i']}))
         for nl in (True, False):
             sfx = '' if nl else ':no-final-newline'
-            obs.append(_k4_case_ob('K4:C:one-level:3-lines' + sfx, {R: ['setup', 'inc:f1', ('i', 'assert', 'inc:f1')],
-                                                                  F1: [ft, ft, ft]}, nl=nl))
-            obs.append(_k4_case_ob('K4:C:two-levels' + sfx,
-                                   {R: [('setup', 'assert'), 'inc:f1', ('i', 'inc:f2')], F1: [ft, 'inc:f2', ('i', 'cleanup', 'inc:f2')],
-                                    F2: [g, g]}, nl=nl))
-            obs.append(_k4_case_ob('K4:C:two-levels-up' + sfx,
-                                   {R: [('setup', 'assert'), 'inc:f2', ('i', 'inc:f1')], F2: [g, 'inc:up-f1', g], F1: [ft]}, nl=nl))
+            # (split by one selector so that no obligation has more than ~800 file sets)
+            for x in ft:
+                obs.append(_k4_case_ob('K4:C:one-level:3-lines:%s%s' % (x, sfx),
+                                       {R: ['setup', 'inc:f1', ('i', 'assert', 'inc:f1')], F1: [x, ft, ft]}, nl=nl))
+                obs.append(_k4_case_ob('K4:C:two-levels:%s%s' % (x, sfx),
+                                       {R: [('setup', 'assert'), 'inc:f1', ('i', 'inc:f2')],
+                                        F1: [x, 'inc:f2', ('i', 'cleanup', 'inc:f2')], F2: [g, g]}, nl=nl))
+            for x in g:
+                obs.append(_k4_case_ob('K4:C:two-levels-up:%s%s' % (x, sfx),
+                                       {R: [('setup', 'assert'), 'inc:f2', ('i', 'inc:f1')], F2: [x, 'inc:up-f1', g], F1: [ft]},
+                                       nl=nl))
             obs.append(_k4_case_ob('K4:C:empty-included-file' + sfx,
                                    {R: [('setup', 'i'), 'inc:f1', ('i', 'blank', 'inc:f1')], F1: []}, nl=nl))
     obs.append(_k4_case_ob('K4:C:seeded-oracle-error', {R: ['setup', 'inc:f1', ('i', 'comment')], F1: [('i', 'comment')]},
